@@ -115,12 +115,17 @@ Allowed(e) ==
             /\ e.tbox[1] = 0 \/ (e.tbox[2] >= ix0 /\ e.tbox[3] >= iy0 /\ e.tbox[4] <= ix1 /\ e.tbox[5] <= iy1)
             /\ (w > 1 /\ h > 1) => e.tbox[1] > 0
     [] e.op = "fp" ->
-         \* camera at pos looking at pos + t (t integer, |t|^2 = d2): rigid, pos -> 0, target -> (0, 0, d)
+         \* camera at pos * 2^psc looking at a target t * 2^-tsc away (t integer, |t|^2 = d2; observations
+         \* scaled back by 2^tsc): rigid, pos -> 0, target -> (0, 0, d).  pm bounds |pos|: the translation
+         \* column is rounded at that magnitude (5e-7 relative), which is what tp allows for.
+         LET tp == (e.pm * (2 ^ e.tsc)) \div 500 IN
          /\ e.panic = 0
          /\ RigidOK(e.M)
-         /\ \A i \in 1..3 : Near(e.ipos[i], 0, 24)
-         /\ Near(e.itgt[1], 0, 12 + e.d \div 64) /\ Near(e.itgt[2], 0, 12 + e.d \div 64) /\ e.itgt[3] > 0
-         /\ Near((e.itgt[3] \div 64) * (e.itgt[3] \div 64), e.d2 * (SC \div 64) * (SC \div 64), (e.d2 * (SC \div 64) * (SC \div 64)) \div 200 + 64)
+         /\ \A i \in 1..3 : Near(e.ipos[i], 0, 24 + tp)
+         /\ Near(e.itgt[1], 0, 12 + e.d \div 64 + tp) /\ Near(e.itgt[2], 0, 12 + e.d \div 64 + tp) /\ e.itgt[3] > 0
+         /\ IF e.tsc = 0
+            THEN Near((e.itgt[3] \div 64) * (e.itgt[3] \div 64), e.d2 * (SC \div 64) * (SC \div 64), (e.d2 * (SC \div 64) * (SC \div 64)) \div 200 + 64)
+            ELSE Near(e.itgt[3], e.d, 12 + e.d \div 64 + tp)
     [] e.op = "fpmove" ->
          \* heading azimuth with (cos, sin) = (cx, sz) / kd: forward = (cx, 0, sz) / kd, right = up x forward = (sz, 0, -cx) / kd
          /\ e.panic = 0
